@@ -207,6 +207,10 @@ def rules(ctx):
     from .c17 import r2_burn_in
     r2_burn_in(ctx, rid="C07.R6", title="draws are kept according to the iteration count only (never according to the cohort's state)")
     r7_no_cohort_wide_decision(ctx)
+    # the proposal scale of an individual adapts to its own acceptance history only: the blocks rescaled are selected by the (elementwise)
+    # band test on the mean acceptance, never by positions (same rule as C19.R3, decided on the same code)
+    from .c19 import r3_std
+    r3_std(ctx, rid="C07.R8", title="each individual's proposal scale adapts to its own acceptance history (mask = elementwise band test; no positional index)")
     ctx.trust("joblib.Parallel preserves the order of its generator and runs each call on the arguments given")
     ctx.assume("population tensors broadcast along trailing axes (never aligned with the individual axis by coincidence)")
 
